@@ -6,14 +6,17 @@ and the observed post-state; TLC decides for every recorded (pre, operation, opt
 whether the relation holds and names the failing clause.
 
 code -> spec: Python enumerates abstract meshes (every mesh of one or two faces over three slots
-and every duplicate pattern of their positions, seeded larger meshes with duplicated and
-unreferenced slots, repeated / reversed / degenerate / collinear faces and a NaN / inf slot),
+and every duplicate pattern of their positions, seeded meshes of up to 4 - 6 faces with duplicated
+and unreferenced slots, repeated / reversed / degenerate / collinear faces and a NaN / inf slot,
+and interleaved triangle strips of 17 - 22 faces, where numpy's sorts behave differently),
 builds trimesh.Trimesh(process=False) with identity tags attached (face attribute and face colour
 = original face index, vertex attribute and vertex colour = original slot, uv / stored vertex
 normal = class of the slot), runs one operation with one option combination, projects every
 returned mesh back to abstract form (position id of each vertex looked up from its coordinates,
 tags decoded from colours / attributes / uv / normals) and records.  Python computes no expected
-value; deviation ids are assigned by predicates on the input and the operation only.
+value.  A rejection is attributed to a known defect by a predicate on the input and the operation,
+restricted to the clause that defect breaks (for the face_subset defect also to results that came
+back with vertex colours); everything else is an unexplained violation.
 """
 import itertools
 import logging
